@@ -10,9 +10,12 @@
      every bracket token of an accepted sequence exactly once with a partner of its own kind
      (tok->link() is then non-null for every bracket, which every later pass dereferences
      unchecked), and otherwise throws unmatchedToken for a token of the list;
+   - Tokenizer::validate, run between the simplification passes, accepts only lists whose
+     link structure is intact (for tokens carrying arbitrary links);
    - in CppCheck::checkInternal and CppCheck::checkClang (handler lists regenerated from
      lib/cppcheck.cpp on every run) each documented exception class ends in the promised
      finding, none escapes to std::terminate. *)
+From CV Require Import Robust.Validate Robust.ValidateProofs Robust.Compose.
 From CV Require Import Robust.Links Robust.LinksProofs Robust.Funnel Robust.FunnelProofs Robust.Gen_Funnel.
 
 Theorem C13_create_links_never_tops_an_empty_stack :
@@ -55,6 +58,33 @@ Example C13_links_example :
   create_links [TOpen Paren; TOpen Brace; TClose Paren] = Unmatched 1 /\
   create_links [TOpen Paren; TClose Brack] = Unmatched 1 /\
   create_links [TOpen Brack; TOpen Brace] = Unmatched 1.
+Proof. vm_compute. repeat split. Qed.
+
+(* Tokenizer::validate over tokens that carry ANY link (an index or none): a list it accepts has
+   an intact link structure -- every opening token is linked to a later closing token that links
+   back, every closing token to an earlier opening token that links back, nothing else carries a
+   link -- whatever the passes before it did to the list *)
+Theorem C13_validate_accepts_only_intact_links :
+  forall all, validate all = VOk -> intact all.
+Proof. exact validate_sound. Qed.
+Print Assumptions C13_validate_accepts_only_intact_links.
+
+Theorem C13_validate_rejects_at_a_token :
+  forall all k, validate all = VErr k -> k < length all.
+Proof. exact validate_err_range. Qed.
+Print Assumptions C13_validate_rejects_at_a_token.
+
+(* the two fit together: a list createLinks accepts, carrying the links it made, passes validate *)
+Theorem C13_created_links_pass_validate :
+  forall toks L, create_links toks = Ok L -> validate (attach toks L) = VOk.
+Proof. exact create_links_then_validate. Qed.
+Print Assumptions C13_created_links_pass_validate.
+
+Example C13_validate_example :
+  validate [(VOpen, Some 3); (VOpen, Some 2); (VClose, Some 1); (VClose, Some 0); (VLt, None); (VOther, None)] = VOk /\
+  validate [(VOpen, Some 2); (VOpen, Some 3); (VClose, Some 0); (VClose, Some 1)] = VErr 2 /\
+  validate [(VOpen, Some 1); (VClose, None)] = VErr 1 /\
+  validate [(VOther, Some 0)] = VErr 0.
 Proof. vm_compute. repeat split. Qed.
 
 (* the exception funnel, on the handler lists read from the source *)
